@@ -42,9 +42,9 @@ type httpBackend struct {
 	rawServer
 	refuse atomic.Bool
 
-	clients []*http.Client
-	px      cache.Proxy
-	nUp     int
+	clients                 []*http.Client
+	px                      cache.Proxy
+	nUp                     int
 	numUploaders, maxQueued int
 }
 
@@ -62,8 +62,8 @@ func newHTTPBackend(mode string, numUploaders, maxQueued int) (*httpBackend, err
 	b.ln = ln
 	b.base = "http://" + ln.Addr().String()
 	b.srv = &http.Server{
-		Handler:  http.HandlerFunc(b.serve),
-		ErrorLog: lib.DiscardLogger,
+		Handler:   http.HandlerFunc(b.serve),
+		ErrorLog:  lib.DiscardLogger,
 		ConnState: b.connState,
 	}
 	go func() { _ = b.srv.Serve(ln) }()
@@ -163,10 +163,14 @@ func (b *httpBackend) clearPlan(hash string) {
 	b.mu.Unlock()
 }
 
-func (b *httpBackend) reqCount(hash string) int { b.mu.Lock(); defer b.mu.Unlock(); return b.counts[hash] }
-func (b *httpBackend) openConns() int           { return int(b.open.Load()) }
-func (b *httpBackend) connSlack() int           { return 0 }
-func (b *httpBackend) stalls() *stallTracker    { return b.st }
+func (b *httpBackend) reqCount(hash string) int {
+	b.mu.Lock()
+	defer b.mu.Unlock()
+	return b.counts[hash]
+}
+func (b *httpBackend) openConns() int        { return int(b.open.Load()) }
+func (b *httpBackend) connSlack() int        { return 0 }
+func (b *httpBackend) stalls() *stallTracker { return b.st }
 
 func (b *httpBackend) uploads(hash string) []upload {
 	b.mu.Lock()
@@ -260,26 +264,34 @@ func (b *httpBackend) healthy(w http.ResponseWriter, req *http.Request, obj []by
 }
 
 func (b *httpBackend) serveRead(w http.ResponseWriter, req *http.Request, hash string, obj []byte, ok bool, p *plan) {
+	head := req.Method == http.MethodHead
+	b.servePlanned(w, req, hash, obj, ok, p,
+		func() { b.healthy(w, req, obj, ok) },
+		func(status int, big bool) {
+			body := errBody(big)
+			w.Header().Set("Content-Length", strconv.Itoa(len(body)))
+			w.WriteHeader(status)
+			if !head {
+				_, _ = w.Write(body)
+			}
+		})
+}
+
+// servePlanned answers one GET/HEAD according to the fault plan. healthy
+// produces the well-behaved answer, fail an error answer in the backend's
+// dialect.
+func (b *rawServer) servePlanned(w http.ResponseWriter, req *http.Request, hash string, obj []byte, ok bool, p *plan,
+	healthy func(), fail func(status int, big bool)) {
 	if p == nil || p.act == "healthy" {
-		b.healthy(w, req, obj, ok)
+		healthy()
 		return
 	}
 	head := req.Method == http.MethodHead
 	switch p.act {
 	case "absent":
-		body := errBody(p.bigBody)
-		w.Header().Set("Content-Length", strconv.Itoa(len(body)))
-		w.WriteHeader(http.StatusNotFound)
-		if !head {
-			_, _ = w.Write(body)
-		}
+		fail(http.StatusNotFound, p.bigBody)
 	case "status":
-		body := errBody(p.bigBody)
-		w.Header().Set("Content-Length", strconv.Itoa(len(body)))
-		w.WriteHeader(p.status)
-		if !head {
-			_, _ = w.Write(body)
-		}
+		fail(p.status, p.bigBody)
 	case "refuse":
 		// The dial hook refuses new connections; a request that still gets
 		// here came over a connection opened earlier: drop it unanswered.
@@ -292,17 +304,19 @@ func (b *httpBackend) serveRead(w http.ResponseWriter, req *http.Request, hash s
 			return
 		case <-time.After(p.delay):
 		}
-		b.healthy(w, req, obj, ok)
+		healthy()
 	case "stall":
 		b.raw(w, hash, nil, "", "stall", 0)
 	case "headsize":
 		if p.size != -2 {
 			w.Header().Set("Content-Length", strconv.FormatInt(p.size, 10))
 		}
+		w.Header().Set("ETag", `"0123456789abcdef0123456789abcdef"`)
+		w.Header().Set("Last-Modified", "Mon, 02 Jan 2006 15:04:05 GMT")
 		w.WriteHeader(http.StatusOK)
 	case "deliver":
 		if !ok {
-			b.healthy(w, req, obj, ok)
+			healthy()
 			return
 		}
 		data := obj
@@ -323,6 +337,8 @@ func (b *httpBackend) serveRead(w http.ResponseWriter, req *http.Request, hash s
 		if p.framing == "cl-exact" && p.end == "clean" && p.trickle == 0 {
 			// A complete, self-consistent response: normal keep-alive path.
 			w.Header().Set("Content-Length", strconv.Itoa(len(data)))
+			w.Header().Set("ETag", `"0123456789abcdef0123456789abcdef"`)
+			w.Header().Set("Last-Modified", "Mon, 02 Jan 2006 15:04:05 GMT")
 			w.WriteHeader(http.StatusOK)
 			_, _ = w.Write(data)
 			return
@@ -348,7 +364,7 @@ func (b *httpBackend) serveRead(w http.ResponseWriter, req *http.Request, hash s
 		}
 		b.raw(w, hash, data, hdr, p.end, p.trickle)
 	default:
-		b.healthy(w, req, obj, ok)
+		healthy()
 	}
 }
 
